@@ -7,9 +7,8 @@
 
    What is proved for ALL inputs: the snprintf contract of the three printers
    (any bitmap, any buffer), asprintf = snprintf, "sscanf returns 0 or -1 and
-   never reads outside" for every NUL-terminated string (list, taskset; hwloc
-   under the hypothesis excluding the two refuted classes, and without
-   hypothesis for the code after patches/fix-C04-sscanf-empty.diff).
+   never reads outside" for every NUL-terminated string (list, taskset, hwloc:
+   /repo eea9042 fixed the over-read on "" and the assert on a leading comma).
    What is only proved on a bounded domain (suffix _partial): the three round
    trips and parse-then-print-then-parse stability. *)
 From Coq Require Import String Ascii.
@@ -60,44 +59,39 @@ Theorem parse_total_taskset : forall dirty s, nul_terminated s ->
 Proof. intros dirty s [n Hs]. exact (parse_taskset_total dirty s n Hs). Qed.
 Print Assumptions parse_total_taskset.
 
-(* --- hwloc format, code as it is (variant false): the full statement is false --- *)
-Example model_follows_current_code : hwloc_sscanf_fixed = false.
-Proof. reflexivity. Qed.
+(* --- hwloc format: /repo eea9042 (comma count from index 0) --- *)
+Example model_follows_current_code : hwloc_sscanf_fixed = true /\ hwloc_sscanf_zeroed = false.
+Proof. split; reflexivity. Qed.
 
-(* "" : strchr(current + 1, ',') starts one byte past the terminator *)
-Theorem sscanf_empty_refuted :
-  exists s, nul_terminated s /\ forall dirty, parse_hwloc_gen false dirty s = Oob.
+Theorem parse_total_hwloc : forall dirty s, nul_terminated s ->
+  exists r, parse_hwloc dirty s = Ok r /\ r <> PAssert.
 Proof.
-  exists [0]. split; [exists 0; split; [reflexivity|intros k Hk; now destruct k]|exact sscanf_empty_oob].
+  intros dirty s [n Hs]. apply (parse_hwloc_gen_total hwloc_sscanf_fixed hwloc_sscanf_zeroed dirty s n Hs).
+  discriminate.
 Qed.
-Print Assumptions sscanf_empty_refuted.
+Print Assumptions parse_total_hwloc.
 
-(* ",1" : the comma at index 0 is not counted, assert(count > 0) fails *)
-Theorem sscanf_leading_comma_refuted :
-  exists s, nul_terminated s /\ forall dirty, parse_hwloc_gen false dirty s = Ok PAssert.
+(* the accepted value must be determined by the string.  REFUTED for the code as
+   it is: "0x1," is accepted and ulongs[0] keeps what the bitmap held before
+   (hwloc_bitmap_reset_by_ulongs does not initialise, the loop ends at the NUL
+   after the comma without storing the accumulator). *)
+Theorem sscanf_trailing_comma_refuted :
+  exists s, nul_terminated s /\ forall d, parse_hwloc_gen true false d s = Ok (PSet (BM [d] false)).
 Proof.
-  exists (cstr ",1"). split; [|exact sscanf_leading_comma_assert].
-  exists 2. split; [reflexivity|]. intros k Hk.
-  assert (k = 0 \/ k = 1) as [-> | ->] by (destruct k as [|[p|p|]]; try destruct p; auto; discriminate).
-  - exists 44. split; [reflexivity|discriminate].
-  - exists 49. split; [reflexivity|discriminate].
+  exists (cstr "0x1,"). split; [|exact sscanf_trailing_comma_stale].
+  exists 4. apply (cstring_app (bytes_of_string "0x1,") []). repeat constructor; discriminate.
 Qed.
-Print Assumptions sscanf_leading_comma_refuted.
-
-(* every other string (not empty, not starting with a comma): 0 or -1, no read outside *)
-Theorem parse_total_hwloc_partial : forall dirty s, nul_terminated s -> hwloc_sscanf_safe s ->
-  exists r, parse_hwloc_gen false dirty s = Ok r /\ r <> PAssert.
-Proof. intros dirty s [n Hs] Hsafe. apply (parse_hwloc_gen_total false dirty s n Hs). now intros _. Qed.
-Print Assumptions parse_total_hwloc_partial.
-
-Example hwloc_sscanf_safe_non_vacuous : hwloc_sscanf_safe (cstr "0xf...f,0x00000001").
-Proof. exists 48. repeat split; discriminate. Qed.
-
-(* --- after patches/fix-C04-sscanf-empty.diff (variant true): full statement --- *)
-Theorem parse_total_hwloc_fixed : forall dirty s, nul_terminated s ->
-  exists r, parse_hwloc_gen true dirty s = Ok r /\ r <> PAssert.
-Proof. intros dirty s [n Hs]. apply (parse_hwloc_gen_total true dirty s n Hs). discriminate. Qed.
-Print Assumptions parse_total_hwloc_fixed.
+Print Assumptions sscanf_trailing_comma_refuted.
+(* no _partial companion: excluding the class needs "every word is stored", not done;
+   the full statement holds for every string after patches/fix-C04-sscanf-unwritten-words.diff: *)
+Theorem parse_hwloc_deterministic_zeroed : forall d1 d2 s,
+  parse_hwloc_gen true true d1 s = parse_hwloc_gen true true d2 s.
+Proof. exact (parse_hwloc_zeroed_deterministic true). Qed.
+Print Assumptions parse_hwloc_deterministic_zeroed.
+Theorem parse_total_hwloc_zeroed : forall dirty s, nul_terminated s ->
+  exists r, parse_hwloc_gen true true dirty s = Ok r /\ r <> PAssert.
+Proof. intros dirty s [n Hs]. apply (parse_hwloc_gen_total true true dirty s n Hs). discriminate. Qed.
+Print Assumptions parse_total_hwloc_zeroed.
 
 Example nul_terminated_non_vacuous : nul_terminated (cstr "0,2,64-65,100-").
 Proof. exists 14. apply (cstring_app (bytes_of_string "0,2,64-65,100-") []). repeat constructor; discriminate. Qed.
